@@ -39,7 +39,7 @@ from __future__ import annotations
 from typing import Any
 
 from vf.core import bfs as B
-from vf.core.runner import Ctx
+from vf.core.runner import Ctx, h
 from vf.kit import c25_sticky as K
 
 PROPERTY = "C27"
@@ -48,7 +48,7 @@ ENGINE = "E2-BFS"
 SHARDS = {"quick": 4, "thorough": 16}
 TECHNIQUE = "explicit-state BFS over request scripts x client view operations on the real client view and real sticky middleware, compared after every response with a spec-derived lifecycle model and a model-free no-orphan invariant"
 RULE = (
-    "BFS depth 3 (quick, 1 view, 7 in-view scripts, 2 plain scripts) / depth 4 (thorough, 2 concurrent views, 13 scripts, detach/resume) "
+    "BFS depth 4 (quick, 1 view, 7 in-view scripts, 2 plain scripts) / depth 6 (thorough, 2 concurrent views, 13 scripts, detach/resume) "
     "over in/out/enter/exit/drain events; after every event: registry vs view tokens vs model; plus the VGI-Session-Accept value matrix "
     "(10 values x draining x token); non-trivial class = (event kind, script, draining, session bound at entry, observed outcome)"
 )
@@ -57,7 +57,7 @@ LEVEL_TEXT = (
     "view is compared with the registry after every response; the statement quantifies over such histories, tests cover one action per request."
 )
 LEVEL_NOTE = (
-    "Bounds: one worker, one client connection, <=2 views, unary calls, scripts of <=3 actions, depth 3/4; clock frozen (expiry belongs to C25/C26). "
+    "Bounds: one worker, one client connection, <=2 views, unary calls, scripts of <=3 actions, depth 4/6; clock frozen (expiry belongs to C25/C26). "
     "Registry contents are read white-box (`_entries`); token->session resolution is behavioural (the token is presented and `ctx.session` observed)."
 )
 ASSUMPTIONS = [
@@ -132,6 +132,7 @@ class World:
         self.outcome: Any = None
         self.cls: Any = None
         self.exit_left = 0
+        self.reported_stale: set[str] = set()
         self._enter(0, None)
 
     # -- helpers -------------------------------------------------------------------------------
@@ -271,6 +272,9 @@ class World:
             if res is not None:
                 held.add(res)
             if tok is not None and res is None:
+                if tok in self.reported_stale:
+                    continue  # this dead token was already reported at the event that made it stale
+                self.reported_stale.add(tok)
                 self.findings.append((f"stale-token:{why}", f"view {v} holds a token that resolves to no live session (model session: {self.m_cur[v]})"))
             elif res != self.m_cur[v] and not (tok is None and self.m_cur[v] in reg):
                 # (tok None while the model session is live in the registry is the orphan case below)
@@ -347,7 +351,9 @@ def make_invariant(ctx: Ctx):
         if not hist:
             return None
         ctx.extra["exit_left_live_session"] += 1 if (hist[-1][0] == "exit" and w.outcome == "left-live") else 0
-        ctx.case(nontrivial=(w.cls, w.outcome), outcome=(w.cls, w.outcome))
+        # bfs() already counted this transition as one evaluation; only classify it (no double counting)
+        ctx.nontrivial.add(h((w.cls, w.outcome)))
+        ctx.outcomes.add(h((w.cls, w.outcome)))
         for key, msg in w.findings:  # findings of the LAST event only; prefixes were judged when they were reached
             ctx.fail(key, f"after {list(hist[-1])}: {msg}", {"part": "bfs", "history": [list(e) for e in hist], "tier": ctx.tier})
         return None
@@ -417,7 +423,7 @@ def c_brief(o: dict[str, Any]) -> str:
 def run(ctx: Ctx) -> None:
     ctx.extra.update({"exit_left_live_session": 0, "accept_matrix_cases": 0})
     nviews = 1 if ctx.quick else 2
-    depth = 3 if ctx.quick else 4
+    depth = 4 if ctx.quick else 6
     st = B.bfs(ctx, make_build(nviews), make_enabled(ctx.tier, nviews), lambda w: w.canon(), make_invariant(ctx), max_depth=depth, label="c27")
     ctx.extra["max_depth_reached"] = st["max_depth"]
     for accept in ACCEPT_VALUES:
